@@ -33,13 +33,13 @@ def cases(tier, seed):
     for H in sizes:
         for P in (sizes if H else [0]):
             k += 1
-            yield dict(kind='compiled', H=H, P=P, rsd=bool(k % 2))
+            yield dict(kind='compiled', H=H, P=P, rsd=bool(k % 2), lc=bool(k % 4 == 1))
     tsz = [0, 1, 2, 3, 5, 8, 17] if tier == 'quick' else [0, 1, 2, 3, 5, 7, 8, 16, 17, 33]
     for H in tsz:
         for P in ([0, 1, 3, 8] if tier == 'quick' else [0, 1, 2, 3, 5, 8, 17]):
             if H == 0 and P:
                 continue
-            yield dict(kind='twin', H=H, P=P, rsd=bool((H + P) % 2))
+            yield dict(kind='twin', H=H, P=P, rsd=bool((H + P) % 2), lc=bool((H + P) % 4 == 1))
     for n in ([0, 1, 5] if tier == 'quick' else [0, 1, 2, 5, 9]):
         yield dict(kind='searchsorted', nh=n)
     # thread-block boundaries depend only on (table length, Nthread): sweep every length densely
@@ -57,7 +57,7 @@ def tracers(sub):
 def table(H, P):
     """deterministic small tables; randoms arranged so that thread blocks hold 0, 1 and several galaxies"""
     i = np.arange(H)
-    hmass = np.array([1e13, 1e14, 10 ** 12.5, 1e15, 1e12])[i % 5]
+    hmass = np.array([1e13, 1e14, 10 ** 12.5, 1e15, 1e12])[(i // 2) % 5]     # neighbouring hosts share a mass but not their secondary properties
     hrand = np.array([0.001, 0.3, 0.02, 0.9, 0.0005, 0.5, 0.7, 0.1])[(i * 3) % 8] * np.where(i % 7 == 3, 0.01, 1.0)
     hd = dict(hpos=np.stack([i * 3.0 - 40, i * 1.5 + 7, 50.0 - i * 2.5], axis=1).astype(np.float64).reshape(H, 3),
               hvel=np.stack([100.0 + i, -50.0 + 2 * i, 300.0 - 7 * i], axis=1).astype(np.float64).reshape(H, 3),
@@ -80,6 +80,11 @@ def table(H, P):
 
 
 PARAMS = dict(z=0.5, h=0.6736, Lbox=200.0, Mpart=2.109e9, velz2kms=87.5, origin=None, chunk=-1, numslabs=1)
+PARAMS_LC = dict(PARAMS, origin=np.array([-310.0, -305.0, -320.0]))     # light-cone observer: radial RSD
+
+
+def params_for(case):
+    return PARAMS_LC if case.get('lc') else PARAMS
 
 
 def flat(out):
@@ -137,7 +142,7 @@ def run_compiled(case):
         for nthread in range(1, 17):
             hd, pd = table(H, P)
             try:
-                out = gen_gal_cat(hd, pd, tr, PARAMS, Nthread=nthread, enable_ranks=True, rsd=rsd, nfw=False, write_to_disk=False, verbose=False)
+                out = gen_gal_cat(hd, pd, tr, params_for(case), Nthread=nthread, enable_ranks=True, rsd=rsd, nfw=False, write_to_disk=False, verbose=False)
             except Exception as e:
                 probs.append(dict(sig='compiled:raises:' + type(e).__name__, msg=f'H={H} P={P} subset={sub} Nthread={nthread}: {e}'))
                 break
@@ -189,7 +194,7 @@ def run_twin(case):
     for si, sub in enumerate(SUBSETS):
         tr = tracers(sub)
         hd, pd = table(H, P)
-        cref = flat(gen_gal_cat(hd, pd, tr, PARAMS, Nthread=1, enable_ranks=True, rsd=rsd, nfw=False, write_to_disk=False, verbose=False))
+        cref = flat(gen_gal_cat(hd, pd, tr, params_for(case), Nthread=1, enable_ranks=True, rsd=rsd, nfw=False, write_to_disk=False, verbose=False))
         ncomp += 1
         for nthread in (1, 2, 3, 4, 5, 8, 16, 17, 40):
             if (nthread + si) % 2 and nthread > 4:
@@ -201,9 +206,9 @@ def run_twin(case):
             for order in perms:
                 hd, pd = table(H, P)
                 rt.reset(nthreads=nthread, max_threads=64, order=order)
-                tag = f'H={H} P={P} subset={[TR[k] for k in sub]} rsd={rsd} Nthread={nthread} order={order}'
+                tag = f'H={H} P={P} subset={[TR[k] for k in sub]} rsd={rsd} lightcone={bool(case.get("lc"))} Nthread={nthread} order={order}'
                 try:
-                    out = T['ggc'](hd, pd, tr, PARAMS, Nthread=nthread, enable_ranks=True, rsd=rsd, nfw=False, write_to_disk=False, verbose=False)
+                    out = T['ggc'](hd, pd, tr, params_for(case), Nthread=nthread, enable_ranks=True, rsd=rsd, nfw=False, write_to_disk=False, verbose=False)
                 except Exception as e:
                     import traceback
                     add('twin:raises:' + type(e).__name__, f'{tag}: ' + ''.join(traceback.format_exception(e))[-800:])
